@@ -66,8 +66,8 @@ Section Law.
 
   Definition decode (a : api) (o : outcome) : verdict :=
     match a, o with
-    | ApiAdapt, OValue v => of_value v
-    | ApiAdapt, OAdaptationError => DNo
+    | (ApiAdapt | ApiAdaptModule), OValue v => of_value v
+    | (ApiAdapt | ApiAdaptModule), OAdaptationError => DNo
     | ApiAdaptDefault, OValue VDefault => DNo
     | ApiAdaptDefault, OValue v => of_value v
     | ApiSupports, OBool true => DYes
@@ -146,8 +146,10 @@ End Law.
 Definition hnext (st : hstate) (o : hop) : hstate :=
   match o with
   | HQuery _ => st
-  | HTables s m => mkH s m (h_offers st)
-  | HOffer x => mkH (h_sub st) (h_mro st) (h_offers st ++ [x])
+  | HTables s m => mkH s m (h_offers st) (h_global st)
+  | HOffer x => mkH (h_sub st) (h_mro st) (h_offers st ++ [x]) (h_global st)
+  | HResetGlobal => mkH (h_sub st) (h_mro st) (h_offers st) false
+  | HSetGlobal => mkH (h_sub st) (h_mro st) (h_offers st) true
   end.
 Fixpoint hlaw (i : Z) (st : hstate) (h : list (hop * option outcome)) : list Z :=
   match h with
